@@ -111,7 +111,9 @@ def job(shard, nshards, seed, tier, exes, plan):
                 sh.violation("C18/readers/shared-tree", "readers/holders of a shared tree: %s" % res, dict(rep0, result=res))
         elif sc == "seed":
             if int(res["hashes_differing_from_late"]):
-                sh.violation("C18/seed/not-fixed-once", "%s of %s threads hashed the fixed key differently from the later value (simultaneous entrants %s)" % (res["hashes_differing_from_late"], res["threads"], res["simultaneous_entrants"]), dict(rep0, result=res))
+                sh.violation("C18/seed/not-fixed-once", "%s of %s threads hashed the fixed key differently (at their first or second use) from the later value (simultaneous entrants %s)" % (res["hashes_differing_from_late"], res["threads"], res["simultaneous_entrants"]), dict(rep0, result=res))
+            if int(res["keys_lost"]):
+                sh.violation("C18/seed/key-inserted-during-race-lost", "%s key(s) inserted during the first use of the hash cannot be found/deleted afterwards" % res["keys_lost"], dict(rep0, result=res))
             sh.count("seed_trials")
             if int(res["simultaneous_entrants"]) >= 2:
                 sh.count("seed_trials_with_simultaneous_entrants")
